@@ -1,4 +1,7 @@
 pub mod c01;
+pub mod c04;
+pub mod c09;
+pub mod c13;
 pub mod ustream;
 
 use crate::report::Report;
@@ -8,6 +11,9 @@ use std::sync::Arc;
 pub fn dispatch(args: &Args, rep: &Arc<Report>) -> bool {
     match args.prop.to_lowercase().as_str() {
         "c01" => c01::run(args, rep),
+        "c04" => c04::run(args, rep),
+        "c09" => c09::run(args, rep),
+        "c13" => c13::run(args, rep),
         _ => return false,
     }
     true
